@@ -12,9 +12,30 @@ SPEC = dict(
                  n_quick=14, n_thorough=120),
     runner=dict(imports=["From ZV Require Import Lib.Base Model.FsOps Model.FinishOps."], case_type="c12case",
                 mismatch_fn="c12_mismatches", shard=300),
-    rule="",
-    trusted_base=[],
-    assumptions=[],
+    rule="REAL index builds of one repository through index.Builder (working tree's index/builder.go + index/tombstones.go with "
+         "their os.* mutation call sites routed through the zzfs shim by translator/fsinstrument, via -overlay). Scenario = old "
+         "index (none | full build with 1-3 shards | full + 1-2 delta builds, so .meta sidecars exist | repository alive in a "
+         "compound shard with/without sidecar, ShardMerging) x new build (full 1-3 shards | delta with 0-2 new shards; "
+         "Parallelism 1 or 3). Per scenario: undisturbed run; killed (freeze) before EVERY mutation; killed by a real os.Exit in "
+         "a child process before every mutation (first scenarios in quick, all in thorough); EVERY single mutation failing "
+         "(CreateTemp also as 'file created, write fails'). After each run the directory is loaded with "
+         "search.NewDirectorySearcher. Case = (build parameters, executed op list, killed?, Finish error?, per-slot view); "
+         "non-trivial = a kill or a fault, distinct by (parameters, ops, view).",
+    trusted_base=["correspondence harness harness/overlay/search/zz_verif_c12_test.go (scenario generator, file-name -> model-name "
+                  "abstraction, classification of a visible shard/sidecar as old/new by IndexMetadata.ID / sidecar bytes, Go oracle "
+                  "by digest of List + Search(TRUE, Whole))",
+                  "translator/fsinstrument + zzfs shim: kill = freeze of all later intercepted operations (validated against real "
+                  "os.Exit kills of a child process); writes through *os.File are not intercepted: the harness inserts the write "
+                  "of every temp file after its CreateTemp (complete before the next intercepted operation)",
+                  "translator/finishops (go/ast walk listing the fs call sites of Finish/writeShard/JsonMarshalRepoMetaTemp/"
+                  "setTombstone in program order -> Generated/FinishSites.v, matched against the model by vm_compute)",
+                  "model abstractions: shard/sidecar contents are 'old' | 'new' | partial per slot; operations are atomic; a failed "
+                  "operation has no effect; reads (Stat, ReadMetadataPathAlive, IndexFilePaths) never fail; rename(2) atomicity and "
+                  "durability (no fsync reasoning) are assumed"],
+    assumptions=["no other writer in the index directory during the build; no temp files / other repositories' files interfere",
+                 "rename is atomic and a kill loses no completed operation (process kill, not power loss)",
+                 "fault-free prefix theorems assume phase W completed every temp file before the rename loop (Finish waits for all "
+                 "shard builders; checked per run by the correspondence)"],
 )
 
 
@@ -29,7 +50,17 @@ def instrument(ctx):
     return data["Replace"], data["sites"]
 
 
+def generate(ctx):
+    """Generated/FinishSites.v: the fs call sites of Finish/writeShard/JsonMarshalRepoMetaTemp/setTombstone in program order."""
+    rc, txt = vf.sh(["go", "run", os.path.join(vf.ROOT, "translator", "finishops", "main.go"), "-repo", vf.REPO],
+                    cwd=vf.REPO, env=vf.go_env(), timeout=300)
+    if rc != 0 or "Definition finish_sites" not in txt:
+        raise RuntimeError("translator/finishops failed: " + txt[-2000:])
+    vf.write_if_changed(os.path.join(vf.COQ, "Generated", "FinishSites.v"), txt[txt.index("(* generated"):])
+
+
 def run(ctx):
+    generate(ctx)
     rep, sites = instrument(ctx)
     orig = vf.go_harness
 
